@@ -218,7 +218,7 @@ fn judge(o: &Result<Out, String>) -> Option<(String, serde_json::Value)> {
 }
 
 pub fn run(cfg: &Cfg, rep: &mut Report) {
-  let total = cfg.n(200_000, 8_000_000);
+  let total = cfg.n(200_000, 30_000_000);
   let max_len = cfg.n(10, 24);
   let mut rng = Rng::new(cfg.seed ^ 0xC12);
   for i in 0..total {
@@ -277,7 +277,7 @@ pub fn run(cfg: &Cfg, rep: &mut Report) {
   }
 
   // thread part: producer threads and late subscribers on BehaviorSubject<_, SubjectThreads> (baton scheduler)
-  let n = cfg.n(6_000, 250_000);
+  let n = cfg.n(6_000, 600_000);
   super::thr::campaign(cfg, rep, "thr", n, 0xC12F, &mut |r: &mut Rng| {
     let mut s = super::thr::random_scen(r, 1);
     // two producers (+ one late subscriber), no terminal: the statement's thread scenario
